@@ -37,6 +37,9 @@ def check(ctx):
     from . import c04
     c04.attach_detach(ctx, P, views, iters, skip=("preempt",))
     timetable(ctx, P)
+    # "at most the slot size in service right after the slot" is counted with number_in_service: its balance over slotted_service (shared instance, C09)
+    from . import c09
+    c09.in_service(ctx, P, iters, only={"slotted_service"})
     ctx.assume("timetable arithmetic of get_schedule_generator (cycle length, offset) is not decided")
 
 
